@@ -15,18 +15,28 @@ let known_witnesses = [
   "f = (n : int) => g n; x = f 1; g = (n : int) => n; x";             (* D7 through a function *)
   "((f : int -> _) => f 1 + 1) ((x : int) => true)";                 (* D9 *)
   "_";                                                                (* D14 *)
+  (* misordered NON-value definitions at several nesting positions: all must be rejected *)
+  "x = y + 1; y = 2 + 1; x";
+  "f = (u : int) => (x = y + 1; y = u + 1; x); f 0";
+  "g = (x = y + 1; y = 2 + 1; x); g";
+  "f = (u : int) => ((v : int) => (x = y + 1; y = v + u; x)) 1; f 0";
+  "h = if true then (x = y + 1; y = 1 + 1; x) else 0; h";
+  "f = (u : int) => (a = 1; (x = y + a; y = u + 1; x)); f 0";
+  "k = (u : int) => (p = (x = y + 1; y = u + 1; x); p); k 1";
   "1 + _";                                                            (* D14 *)
 ]
 
-(* the stuck variable (index, number of enclosing group binders) on the evaluation path *)
-let rec stuck_var (t : term) (gb : int) : (int * int) option =
+(* the stuck variable on the evaluation path, resolved against the group definitions crossed on the way:
+   Some (Some d) = it denotes the group definition d (still unevaluated), Some None = not a group variable *)
+let rec stuck_var (t : term) (env : term option list) : term option option =
   match t with
-  | TVar i -> Some (int_of_nat i, gb)
-  | TApp (f, a) -> if not (is_value f) then stuck_var f gb else if not (is_value a) then stuck_var a gb else None
-  | TLet ((_, d) :: rest, _) -> if is_value d then None else stuck_var d (gb + 1 + List.length rest)
-  | TNeg a -> if not (is_value a) then stuck_var a gb else None
-  | TBin (_, a, b) -> if not (is_value a) then stuck_var a gb else if not (is_value b) then stuck_var b gb else None
-  | TIf (c, _, _) -> if not (is_value c) then stuck_var c gb else None
+  | TVar i -> Some (try List.nth env (int_of_nat i) with _ -> None)
+  | TApp (f, a) -> if not (is_value f) then stuck_var f env else if not (is_value a) then stuck_var a env else None
+  | TLet (((_, d) :: _) as ds, _) ->
+    if is_value d then None else stuck_var d (List.rev_map (fun (_, x) -> Some x) ds @ env)
+  | TNeg a -> if not (is_value a) then stuck_var a env else None
+  | TBin (_, a, b) -> if not (is_value a) then stuck_var a env else if not (is_value b) then stuck_var b env else None
+  | TIf (c, _, _) -> if not (is_value c) then stuck_var c env else None
   | _ -> None
 
 let gen ~(tier : string) ~(seed : int) ~(emit : Sexp.t -> unit) : unit =
@@ -40,7 +50,13 @@ let gen ~(tier : string) ~(seed : int) ~(emit : Sexp.t -> unit) : unit =
         | _ -> Gen_prog.mixed) in
     let t = (match Rng.int r 10 with 0 | 1 -> Gen_prog.Bool | 2 -> Gen_prog.Arrow (Gen_prog.Int, Gen_prog.Int) | 3 -> Gen_prog.Type | _ -> Gen_prog.Int) in
     let size = 3 + Rng.int r (if Rng.chance r 1 8 then 150 else 40) in
-    emit (case_pipe (Gen_prog.to_string (Gen_prog.program r m t size)))
+    let p = Gen_prog.program r m t size in
+    emit (case_pipe (Gen_prog.to_string p));
+    (* a misordered variant: accepted only if the later definition is a value (D7), otherwise it must be rejected *)
+    if i mod 3 = 0 then begin
+      let q = Gen_prog.misorder r p in
+      if q <> p then emit (case_pipe (Gen_prog.to_string q))
+    end
   done
 
 let check (case : Sexp.t) (res : Sexp.t) : [ `Ok | `Mismatch of string | `Property of string ] * bool =
@@ -61,8 +77,10 @@ let check (case : Sexp.t) (res : Sexp.t) : [ `Ok | `Mismatch of string | `Proper
              let sg =
                (match k with
                 | FreeVariable ->
-                  (match stuck_var v 0 with
-                   | Some (i, gb) when i < gb -> " sig=D7-definition-not-yet-available"
+                  (* D7: the unavailable definition is a VALUE definition of an enclosing group (the definition-order
+                     check treats those as always available); an unavailable NON-value definition is not D7 *)
+                  (match stuck_var v [] with
+                   | Some (Some d) when is_value d -> " sig=D7-definition-not-yet-available"
                    | _ -> "")
                 | UnfilledHole -> if a.open_holes = 0 then " sig=D14-unfilled-hole-evaluated" else " sig=D9-hole-copied-by-open"
                 | NotAFunction | NotAnInteger | NotABoolean -> if a.open_holes > 0 then " sig=D9-hole-copied-by-open" else ""
